@@ -131,6 +131,7 @@ type Enc struct {
 	preambleGhosts  bool
 	curFrameForSite *Frame
 	dynImpl         map[string]bool
+	qbound          []string // names of the quantifier variables whose body is being evaluated
 	recGhost        map[string]bool
 }
 
@@ -149,6 +150,17 @@ func (e *Enc) assert(t string) {
 		return
 	}
 	e.emit("(assert " + t + ")")
+}
+
+// assertTyping: side facts (typing of loaded values). Produced while a quantifier body is being evaluated they may mention
+// the bound variable; such a fact cannot be asserted at top level and is dropped (typing facts only ever help a proof).
+func (e *Enc) assertTyping(t string) {
+	for _, q := range e.qbound {
+		if strings.Contains(t, q) {
+			return
+		}
+	}
+	e.assert(t)
 }
 
 // assume under the current reach condition of st
@@ -283,9 +295,9 @@ func (e *Enc) loadLoc(st *State, l *Loc) *Val {
 		if lf.Sort == "Int" && lf.Path == "" && isRefLike(lf.T) {
 			a0 := e.declConst(sym(key+"@0"), sort)
 			if l.Kind == 'S' {
-				e.assert("(<= (select (select " + a0 + " " + l.Ref + ") " + l.Idx + ") alloc@0)")
+				e.assertTyping("(<= (select (select " + a0 + " " + l.Ref + ") " + l.Idx + ") alloc@0)")
 			} else {
-				e.assert("(<= (select " + a0 + " " + l.Ref + ") alloc@0)")
+				e.assertTyping("(<= (select " + a0 + " " + l.Ref + ") alloc@0)")
 			}
 		}
 	}
@@ -300,16 +312,16 @@ func (e *Enc) typeAssume(st *State, lf Leaf, t string) {
 	switch u := lf.T.Underlying().(type) {
 	case *types.Basic:
 		if lo, hi, ok := intRange(u); ok {
-			e.assert("(and (<= " + smtInt(lo) + " " + t + ") (<= " + t + " " + smtInt(hi) + "))")
+			e.assertTyping("(and (<= " + smtInt(lo) + " " + t + ") (<= " + t + " " + smtInt(hi) + "))")
 		}
 	case *types.Pointer, *types.Map:
 		if lf.Path == "" {
-			e.assert("(<= " + t + " " + st.alloc + ")")
+			e.assertTyping("(<= " + t + " " + st.alloc + ")")
 		}
 	case *types.Slice:
 		switch lf.Path {
 		case ".base":
-			e.assert("(<= " + t + " " + st.alloc + ")")
+			e.assertTyping("(<= " + t + " " + st.alloc + ")")
 		}
 	}
 }
